@@ -31,4 +31,15 @@ XpCalls2 == { [p \in P2 |-> IF p = "g1" THEN c[1] ELSE c[2]] :
                     c \in { <<<<"A">>, <<"C">>>>, <<<<"A">>, <<"D">>>>, <<<<"D", "A">>, <<"C", "A">>>> } }
 XpCalls3 == { [p \in P3 |-> IF p = "g1" THEN c[1] ELSE IF p = "g2" THEN c[2] ELSE c[3]] :
                     c \in { <<<<"A">>, <<"C">>, <<"D">>>>, <<<<"A">>, <<"A">>, <<"D", "C">>>> } }
+NoneInvalid == {}
+
+\* a rejected schema: L is flattened into itself (validateBuiltRef), H holds an L, G is unrelated
+InvTypes == {"L", "H", "G"}
+InvChild == [t \in InvTypes |-> CASE t = "L" -> <<"L">> [] t = "H" -> <<"L">> [] OTHER -> <<>>]
+InvPkg == [t \in InvTypes |-> "ia.v1"]
+InvInvalid == {"L"}
+InvCalls2 == { [p \in P2 |-> IF p = "g1" THEN c[1] ELSE c[2]] :
+                    c \in { <<<<"L">>, <<"L">>>>, <<<<"L">>, <<"H">>>>, <<<<"H">>, <<"L", "G">>>>, <<<<"H", "G">>, <<"G", "H">>>> } }
+InvCalls3 == { [p \in P3 |-> IF p = "g1" THEN c[1] ELSE IF p = "g2" THEN c[2] ELSE c[3]] :
+                    c \in { <<<<"L">>, <<"H">>, <<"G">>>>, <<<<"H">>, <<"H">>, <<"L">>>> } }
 =============================================================================
